@@ -21,6 +21,10 @@ struct Case {
     class: u8,
     others: u8,
     target_pos: u8,
+    /// what else the instance carries (left behind by other API calls): bit 0 = the target variable has a recorded
+    /// value (partial_evaluate), bit 1 = that value is fractional, bit 2 = the instance records parameter values
+    /// (with_parameters), bit 3 = a dependency and a removed constraint exist
+    decor: u8,
 }
 
 fn build(case: &Case) -> (v1::Instance, u64) {
@@ -46,6 +50,11 @@ fn build(case: &Case) -> (v1::Instance, u64) {
             };
             v.bound = if case.class == 4 { None } else { Some(crate::mk::bound(case.lower, case.upper)) };
             v.name = Some("target".into());
+            if case.decor & 1 != 0 {
+                // the variable stays an integer variable with this bound; a recorded value does not change its range
+                let inside = if case.lower.is_finite() { case.lower.ceil() + 1.0 } else { 3.0 };
+                v.substituted_value = Some(if case.decor & 2 != 0 { 0.5 } else { inside });
+            }
         } else {
             v.kind = KIND_CONTINUOUS;
             v.bound = Some(crate::mk::bound(-1.0, 1.0));
@@ -66,6 +75,25 @@ fn build(case: &Case) -> (v1::Instance, u64) {
     c.equality = LE_ZERO;
     c.function = Some(crate::mk::flin(crate::mk::linear(vec![(target, 1.0)], -3.0)));
     inst.constraints.push(c);
+    if case.decor & 4 != 0 {
+        let mut p = v1::Parameters::default();
+        p.entries.insert(2, 1.5);
+        p.entries.insert(7, -1.0);
+        if case.decor & 16 != 0 {
+            p.entries.insert(1 << 34, 0.25);
+        }
+        inst.parameters = Some(p);
+    }
+    if case.decor & 8 != 0 {
+        let mut rc = v1::RemovedConstraint::default();
+        let mut c = v1::Constraint::default();
+        c.id = 2;
+        c.equality = EQ_ZERO;
+        c.function = Some(crate::mk::flin(crate::mk::linear(vec![(SECOND_ID, 1.0)], 0.0)));
+        rc.constraint = Some(c);
+        rc.removed_reason = "relaxed".into();
+        inst.removed_constraints.push(rc);
+    }
     (inst, if case.class == 1 { 4242 } else { target })
 }
 
@@ -239,6 +267,13 @@ fn decode(t: &mut Tape, ctx: &mut Ctx) -> Case {
     let class = if t.p(80) { 1 + t.choice(10) as u8 } else { 0 };
     let others = t.byte();
     let target_pos = t.byte();
+    let decor = if t.p(110) { t.byte() } else { 0 };
+    if decor & 1 != 0 {
+        ctx.label("target-has-recorded-value");
+    }
+    if decor & 4 != 0 {
+        ctx.label("instance-records-parameters");
+    }
     let frac = |t: &mut Tape| *t.pick(&[0.0, 0.5, 0.25, 0.999, 0.001, 0.75, 5e-7, 0.9999995, 1e-7, 0.9999999, 2e-6, 0.999998]);
     let (mut lower, mut upper);
     match t.weighted(&[5, 3, 2]) {
@@ -292,7 +327,7 @@ fn decode(t: &mut Tape, ctx: &mut Ctx) -> Case {
         }
         _ => {}
     }
-    Case { lower, upper, class, others, target_pos }
+    Case { lower, upper, class, others, target_pos, decor }
 }
 
 const CLASS_NAMES: [&str; 11] = ["ok", "unknown-id", "binary-kind", "continuous-kind", "no-bound", "lower=-inf", "upper=+inf", "both-infinite", "nan", "no-integer-inside", "inverted-bound"];
@@ -350,12 +385,12 @@ impl Property for C12 {
         "C12"
     }
     fn rule(&self) -> &'static str {
-        "sweep = every lower in [-6,6] x every width 0..600 (quick) / 0..4096 (thorough) plus widths 2^k-1, 2^k, 2^k+1 up to 4097, each checked on ALL bit patterns; random = ranges with |l|,|u|<=2^20, fractional bounds, other variables with larger ids, and every error class (unknown id, binary/continuous kind, no bound, lower=-inf, upper=+inf, both, NaN, no integer inside; the infinite/NaN classes run in a child process under a 20 s / 4 GB limit because the statement is 'an error, not a hang'); \
+        "sweep = every lower in [-6,6] x every width 0..600 (quick) / 0..4096 (thorough) plus widths 2^k-1, 2^k, 2^k+1 up to 4097, each checked on ALL bit patterns; random = ranges with |l|,|u|<=2^20, fractional bounds, other variables with larger ids, a recorded value on the variable, recorded parameter values / removed constraints on the instance, and every error class (unknown id, binary/continuous kind, no bound, lower=-inf, upper=+inf, both, NaN, no integer inside; the infinite/NaN classes run in a child process under a 20 s / 4 GB limit because the statement is 'an error, not a hang'); \
          oracle = value set over all bit patterns (width<=4096) or complete-sequence criterion; non-trivial = width>=2 and not 2^k-1, or an error class; distinct = (lower, upper, class, layout)"
     }
     fn required_labels(&self) -> Vec<String> {
         let mut v: Vec<String> = CLASS_NAMES.iter().map(|c| format!("class={c}")).collect();
-        v.extend(["fractional-bound", "width>4096", "single-integer", "oracle=all-bit-patterns", "oracle=complete-sequence", "child-process", "second-encode"].iter().map(|s| s.to_string()));
+        v.extend(["fractional-bound", "width>4096", "single-integer", "oracle=all-bit-patterns", "oracle=complete-sequence", "child-process", "second-encode", "target-has-recorded-value", "instance-records-parameters"].iter().map(|s| s.to_string()));
         v
     }
     fn cases(&self, tier: Tier) -> usize {
@@ -392,7 +427,7 @@ impl Property for C12 {
             } else {
                 [(0, big), (-big, 0), (-big, big - 1), (-big + 1, big), (big - 1, big), (-big, -big)][j - 63]
             };
-            let case = Case { lower: l as f64, upper: u as f64, class: 0, others: (j % 5) as u8, target_pos: (j % 3) as u8 };
+            let case = Case { lower: l as f64, upper: u as f64, class: 0, others: (j % 5) as u8, target_pos: (j % 3) as u8, decor: 0 };
             ctx.label("class=ok");
             ctx.label("corner");
             ctx.nontrivial();
@@ -413,7 +448,7 @@ impl Property for C12 {
             }
             Tier::Thorough => wi as u64,
         };
-        let case = Case { lower: l as f64, upper: (l + w as i64) as f64, class: 0, others: (i % 4) as u8, target_pos: (i % 3) as u8 };
+        let case = Case { lower: l as f64, upper: (l + w as i64) as f64, class: 0, others: (i % 4) as u8, target_pos: (i % 3) as u8, decor: 0 };
         ctx.label("class=ok");
         if w >= 2 && !(w + 1).is_power_of_two() {
             ctx.nontrivial();
@@ -442,7 +477,7 @@ impl Property for C12 {
         if case.class != 0 || (w >= 2.0 && !((w as u64 + 1).is_power_of_two())) {
             ctx.nontrivial();
         }
-        ctx.fp_dbg(&(case.lower.to_bits(), case.upper.to_bits(), case.class, case.others % 6, case.target_pos));
+        ctx.fp_dbg(&(case.lower.to_bits(), case.upper.to_bits(), case.class, case.others % 6, case.target_pos, case.decor & 31));
         ctx.sample_with(|| json!({"lower": format!("{}", case.lower), "upper": format!("{}", case.upper), "class": CLASS_NAMES[case.class as usize], "other_variables": case.others % 6}));
         if matches!(case.class, 5 | 6 | 7 | 8) {
             ctx.label("child-process");
